@@ -298,8 +298,14 @@ carquet_status_t carquet_batch_reader_next(
         return CARQUET_OK;
     }
 
-    /* Read each column - potentially in parallel */
-    bool read_error = false;
+    /* Read each column - potentially in parallel. The flag is written and
+     * polled by all worker threads, so every access is atomic. */
+    int read_error = 0;
+#ifdef _OPENMP
+#define BATCH_SET_READ_ERROR() do { _Pragma("omp atomic write") read_error = 1; } while (0)
+#else
+#define BATCH_SET_READ_ERROR() do { read_error = 1; } while (0)
+#endif
 
 #ifdef _OPENMP
     int num_threads = batch_reader->config.num_threads;
@@ -356,7 +362,12 @@ carquet_status_t carquet_batch_reader_next(
     #pragma omp parallel for num_threads(num_threads) schedule(dynamic)
 #endif
     for (col_i = 0; col_i < batch_reader->num_projected; col_i++) {
-        if (read_error) continue;
+        int error_seen;
+#ifdef _OPENMP
+        #pragma omp atomic read
+#endif
+        error_seen = read_error;
+        if (error_seen) continue;
 
         carquet_column_reader_t* col_reader = batch_reader->col_readers[col_i];
         carquet_column_data_t* col_data = &new_batch->columns[col_i];
@@ -421,14 +432,14 @@ carquet_status_t carquet_batch_reader_next(
 
             /* Validate value_size and check for overflow */
             if (value_size == 0 || rows_to_read <= 0) {
-                read_error = true;
+                BATCH_SET_READ_ERROR();
                 continue;
             }
 
             /* Check for multiplication overflow (max 1GB allocation) */
             #define CARQUET_MAX_BATCH_ALLOC (1024ULL * 1024 * 1024)
             if (value_size > CARQUET_MAX_BATCH_ALLOC / (size_t)rows_to_read) {
-                read_error = true;
+                BATCH_SET_READ_ERROR();
                 continue;
             }
 
@@ -437,7 +448,7 @@ carquet_status_t carquet_batch_reader_next(
             /* Allocate column data buffer */
             col_data->data = malloc(data_size);
             if (!col_data->data) {
-                read_error = true;
+                BATCH_SET_READ_ERROR();
                 continue;
             }
             col_data->data_capacity = data_size;
@@ -461,7 +472,7 @@ carquet_status_t carquet_batch_reader_next(
              * hands back what it had. A batch whose columns differ in length must
              * not be passed off as good data. */
             if (values_read != rows_to_read) {
-                read_error = true;
+                BATCH_SET_READ_ERROR();
                 free(def_levels);
                 continue;
             }
